@@ -757,3 +757,70 @@ def r_quant_guard(P, R):
     R.floor(f'R-CONN keep-arm guards for {R.prop}', n,
             len(targets.get(R.prop, [])))
 r_quant_guard.NAME = 'R-CONN(quantified levels never kept)'
+
+
+def r_spaces(P, R):
+    """`_image(u, v, umap, vmap, ...)`: the second operand is read through
+    the renaming `vmap` (its level jv stands for level vmap[jv]), the first
+    is not.  A node number of `u` and a node number of `v` therefore do
+    not denote functions over the same variables, and comparing them
+    (`u == v`, `u == -v`) says nothing about u /\\ v - unless the test also
+    establishes that there is no renaming."""
+    f = P.func('dd.bdd._image')
+    params = f.params
+    if len(params) < 4:
+        raise AnalysisError('dd.bdd._image: signature changed')
+    a, b, vmap = params[0], params[1], params[3]
+    # names derived from each operand through _top_cofactor
+    side = {a: 'first', b: 'second'}
+    for s in sorted((x for x in au.walk_no_defs(f.node)
+                     if isinstance(x, ast.Assign)), key=lambda x: x.lineno):
+        if isinstance(s.value, ast.Call) and au.call_name(
+                s.value) == '_top_cofactor' and s.value.args and \
+                isinstance(s.value.args[0], ast.Name) and \
+                s.value.args[0].id in side:
+            for nm in au.target_names(s.targets[0]):
+                side[nm] = side[s.value.args[0].id]
+    au.set_parents(f.node)
+    n = 0
+    for c in au.walk_no_defs(f.node):
+        if not isinstance(c, ast.Compare) or len(c.ops) != 1:
+            continue
+        n += 1
+        l = {side[x.id] for x in ast.walk(c.left)
+             if isinstance(x, ast.Name) and x.id in side}
+        r = {side[x.id] for x in ast.walk(c.comparators[0])
+             if isinstance(x, ast.Name) and x.id in side}
+        if not ((l == {'first'} and r == {'second'}) or (
+                l == {'second'} and r == {'first'})):
+            continue
+        # guarded by `vmap is None` in the same test or an enclosing one?
+        ok = False
+        p = c
+        while p is not None and not ok:
+            t = p.test if isinstance(p, (ast.If, ast.IfExp)) else (
+                p if isinstance(p, ast.BoolOp) and isinstance(
+                    p.op, ast.And) else None)
+            if t is not None:
+                for x in ast.walk(t):
+                    if isinstance(x, ast.Compare) and au.is_name(
+                            x.left, vmap) and isinstance(
+                                x.ops[0], ast.Is) and isinstance(
+                                    x.comparators[0], ast.Constant) and \
+                            x.comparators[0].value is None:
+                        ok = True
+            p = getattr(p, '_parent', None)
+        if not ok:
+            R.violation(
+                'R-DOMAIN', 'operands-of-two-spaces', f.qualname,
+                au.short(c, 30),
+                f'`{au.short(c)}` compares a reference of the first '
+                'operand with one of the second: the second operand is '
+                f'read through the renaming `{vmap}`, so equal (or '
+                'complementary) node numbers do not mean equal (or '
+                'complementary) functions', unit=f.unit.rel,
+                line=c.lineno)
+    R.holds('R-DOMAIN', f.qualname,
+            f'{n} comparison(s): none relates a reference of `{a}` to a '
+            f'reference of `{b}` without `{vmap} is None`')
+r_spaces.NAME = 'R-DOMAIN(operands of _image)'
